@@ -280,7 +280,7 @@ def render_stmt(s, ind):
     if k == "svar":                       # ["svar", spelled struct type, name, [[field, type, init]...]]
         q = s[4] if len(s) > 4 else ""
         ty = ("const " + s[1]) if q == "const" else ((s[1] + " const") if q == "post-const" else s[1])
-        return [pad + ty + " " + s[2] + " = {" + ", ".join(rx(i, 2) for _, _, i in s[3]) + "};"]
+        return [pad + ty + " " + s[2] + " = {" + ", ".join(rx(f[2], 2) for f in s[3]) + "};"]
     if k == "spdecl":                     # ["spdecl", form, spelled struct type, pointer name, struct var, fields]
         form = {"": "%s *%s", "pc": "const %s *%s", "pc2": "%s const *%s", "cp": "%s * const %s"}[s[1]]
         return [pad + form % (s[2], s[3]) + " = &" + s[4] + ";"]
@@ -348,7 +348,7 @@ def render_top(t):
     if k == "typedef":                    # ["typedef", name, spelled base]
         return "typedef %s %s;" % (t[2], t[1])
     if k == "struct":                     # ["struct", form, tag, typedef name, [[type, spelled, field]...]]
-        body = "{\n" + "".join("  %s %s;\n" % (sp, fn) for _, sp, fn in t[4]) + "}"
+        body = "{\n" + "".join("  %s %s%s;\n" % (f[1], f[2], (" : %d" % f[3]) if len(f) > 3 and f[3] else "") for f in t[4]) + "}"
         if t[1] == "plain":
             return "struct %s %s;" % (t[2], body)
         if t[1] == "typedef-tag":
@@ -372,9 +372,17 @@ def render_program(d):
 class Obj:
     """a variable: scalar (n == 1, scalar=True) or array; a pointer variable has kind == 'ptr'"""
 
-    def __init__(self, t, vals, scalar=True, const=False):
+    def __init__(self, t, vals, scalar=True, const=False, bits=0):
         self.t, self.vals, self.scalar, self.const = t, vals, scalar, const
         self.ptr = None        # (target Obj, offset, pointee_const) for pointer variables
+        self.bits = bits       # width of a bit field (0 = ordinary object)
+
+    def store(self, i, v):
+        if self.bits:
+            lo, hi = (-(1 << (self.bits - 1)), (1 << (self.bits - 1))) if self.t in SIGNED else (0, 1 << self.bits)
+            if not (lo <= v < hi):
+                raise Undefined("value does not fit the bit field")   # implementation-defined / wraps: not relied upon
+        self.vals[i] = v
 
 
 class _Break(Exception):
@@ -579,7 +587,7 @@ class Interp:
                 raise Invalid("increment of char")
             else:
                 new = arith("+" if e[1] == "++" else "-", t, old, 1)
-            o.vals[i] = new
+            o.store(i, new)
             return t, (new if k == "pre" else old)
         if k == "bin":
             op = e[1]
@@ -642,7 +650,7 @@ class Interp:
                     if op in ("%", "&", "|", "^") and ct == "double":
                         raise Invalid("double operand of " + op)
                     nv = conv(arith(op, ct, conv(old, promote(t), ct), conv(v, promote(tv), ct)), ct, t)
-            o.vals[i] = nv
+            o.store(i, nv)
             return t, nv
         if k == "ter":
             _, c = self.ev(e[1])
@@ -760,17 +768,19 @@ class Interp:
             vals = [p[1] for p in s[3]] + [0]
             self.declare(s[2], Obj("char", vals, scalar=False, const=True))
         elif k == "svar":
-            for fn, ft, init in s[3]:
+            for f in s[3]:
+                fn, ft, init = f[0], f[1], f[2]
                 tv, v = self.ev(init)
                 if promote(tv) != ft and not (init[0] == "lit" and ft == "double" and tv == "int"):
                     raise Invalid("narrowing in a braced initialiser")
-                self.declare(s[2] + "." + fn, Obj(ft, [conv(v, promote(tv) if tv != ft else tv, ft)],
-                                                  const=bool(s[4] if len(s) > 4 else "")))
+                o = Obj(ft, [0], const=bool(s[4] if len(s) > 4 else ""), bits=(f[3] if len(f) > 3 else 0))
+                o.store(0, conv(v, promote(tv) if tv != ft else tv, ft))
+                self.declare(s[2] + "." + fn, o)
         elif k == "spdecl":
             for fn in s[5]:
                 o = self.lookup(s[4] + "." + fn)
                 if s[1] in ("pc", "pc2"):
-                    o2 = Obj(o.t, o.vals, const=True)      # same storage, read-only view
+                    o2 = Obj(o.t, o.vals, const=True, bits=o.bits)      # same storage, read-only view
                     self.declare(s[3] + "->" + fn, o2)
                     self.declare("(*" + s[3] + ")." + fn, o2)
                 else:
@@ -919,6 +929,7 @@ class Gen:
         self.no_embed = 0
         self.spell = {t: list(v) for t, v in SPELL.items()}
         self.structs = []
+        self.excluded = {}          # avoided construct class -> how often the generator turned away from it
 
     # -- helpers for the random source
     def u(self):
@@ -1104,12 +1115,15 @@ class Gen:
 
     def sizeof_expr(self, scope):
         self.feat.add("sizeof")
-        vs = [v for v in scope if v["kind"] in ("scalar", "arr", "ptr")]
+        vs = [v for v in scope if v["kind"] in ("scalar", "arr", "ptr") and not v.get("nosizeof")]
         c = self.u()
         nopar = "sizeof-noparen" not in self.avoid
         if vs and c < 0.6:
             v = self.pick(vs)
-            form = self.pick(["p", "p", "n"]) if nopar else "p"
+            form = self.pick(["p", "p", "n"])
+            if form == "n" and not nopar:
+                self.excluded["sizeof-noparen"] = self.excluded.get("sizeof-noparen", 0) + 1
+                form = "p"
             if form == "n":
                 self.feat.add("sizeof-noparen")
             return ["sizeof", ["var", v["name"]], form]
@@ -1124,9 +1138,16 @@ class Gen:
         finally:
             self.no_embed -= 5
             self.reads, self.locked = save
-        if nopar and self.p(0.2):
-            self.feat.add("sizeof-noparen")
-            return ["sizeof", e, "n"]
+        core = e
+        while core[0] == "par":
+            core = core[1]
+        if core[0] == "var" and any(v["name"] == core[1] and v.get("nosizeof") for v in scope):
+            e = ["un", "+", e]              # sizeof of a bit field is not C; sizeof(+bitfield) is
+        if self.p(0.2):
+            if nopar:
+                self.feat.add("sizeof-noparen")
+                return ["sizeof", e, "n"]
+            self.excluded["sizeof-noparen"] = self.excluded.get("sizeof-noparen", 0) + 1
         return ["sizeof", e, "p"]
 
     def maybe_par(self, e, p=0.12):
@@ -1651,7 +1672,12 @@ class Gen:
             fields = []
             for j in range(r.randint(1, 3)):
                 t = self.pick(["int", "long", "double", "uint", "int"])
-                fields.append([t, self.pick(self.spell[t]), "m%d" % j])
+                bits = 0
+                # only (signed) int bit fields: an unsigned bit field narrower than int promotes to int, not to unsigned
+                if t == "int" and self.p(0.3) and "bitfield" not in self.avoid:
+                    bits = self.pick([5, 7, 9, 12])
+                    self.feat.add("bitfield")
+                fields.append([t, self.pick(self.spell[t]), "m%d" % j, bits])
             form = self.pick(["plain", "plain", "typedef-tag", "typedef-anon"])
             tops.append(["struct", form, "S0", "TS0", fields])
             spell = {"plain": ["struct S0"], "typedef-tag": ["struct S0", "TS0"], "typedef-anon": ["TS0"]}[form]
@@ -1687,11 +1713,17 @@ class Gen:
         st = self.pick(self.structs)
         nm = self.fresh("q")
         inits, new = [], []
-        for ft, _, fn in st["fields"]:
+        for ft, _, fn, bits in st["fields"]:
             self.reads, self.locked = set(), set()
-            init = self.expr(scope, "dbl", 1) if ft == "double" else self.typed_int(scope, ft)
-            inits.append([fn, ft, init])
-            new.append({"name": nm + "." + fn, "kind": "scalar", "t": ft, "const": False, "noembed": True})
+            if bits:
+                init = self.int_lit(0, 9, ft)
+            else:
+                init = self.expr(scope, "dbl", 1) if ft == "double" else self.typed_int(scope, ft)
+            inits.append([fn, ft, init, bits])
+            ent = {"name": nm + "." + fn, "kind": "scalar", "t": ft, "const": False, "noembed": True}
+            if bits:
+                ent["noaddr"] = ent["nosizeof"] = True
+            new.append(ent)
         qual = self.pick(["", "", "", "const", "post-const"])
         if qual == "post-const" and "struct-post-const" in self.avoid:
             qual = "const"
@@ -1717,9 +1749,12 @@ class Gen:
             forms.append("pc2")
         form = self.pick(forms)
         new = []
-        for ft, _, fn in st["fields"]:
+        for ft, _, fn, bits in st["fields"]:
             for nme in (nm + "->" + fn, "(*" + nm + ")." + fn):
-                new.append({"name": nme, "kind": "scalar", "t": ft, "const": form in ("pc", "pc2"), "noembed": True})
+                ent = {"name": nme, "kind": "scalar", "t": ft, "const": form in ("pc", "pc2"), "noembed": True}
+                if bits:
+                    ent["noaddr"] = ent["nosizeof"] = True
+                new.append(ent)
         self.feat.add("struct-pointer" + ("-const" if form in ("pc", "pc2") else ""))
         if form == "pc2":
             self.feat.add("struct-post-const")
@@ -1897,6 +1932,7 @@ def program(r, avoid=(), nstmts=(4, 9)):
                 main["body"].append(stmt)
     main["body"].append(["return", ["var", "r"]])
     d["feat"] = sorted(g.feat)
+    d["excluded"] = dict(g.excluded)
     return d
 
 
